@@ -28,7 +28,7 @@ E2_CLASSES = ["contracts.C16_dist:DistRegular", "contracts.C16_dist:DistZeros", 
 
 def jobs(tier, seed):
     from .C02 import e2_jobs
-    t = 10.0 if tier == "quick" else 60.0
+    t = 30.0 if tier == "quick" else 90.0
     js = e2_jobs("C16", E2_CLASSES, tier, seed) + [Job("C16/encode", "contracts.C16:job_encode", dict(seed=seed, timeout_s=t)),
           Job("C16/decode-A", "contracts.C16:job_decode", dict(variant="A", seed=seed, timeout_s=t)),
           Job("C16/decode-B", "contracts.C16:job_decode", dict(variant="B", seed=seed, timeout_s=t))]
